@@ -244,6 +244,43 @@ def run(ck, facts):
     if len(found) < 25:
         ck.bad("R3", "floor", "only %d unwrap/expect sites found" % len(found))
 
+    # `Type::id().unwrap()` is sound only where the value is known to be a custom type (a Struct/Enum/Opaque arm on that value, or a converted SelfType)
+    n_id = 0
+    for f in tool.fn_list:
+        if "hir" not in f or f.get("exp") or f.get("dk") == "Closure":
+            continue
+        fdefs_ = None
+        for n, st in C.with_conditions(C.fn_body(f)):
+            if not (n.get("k") == "mcall" and n.get("m") in ("unwrap", "expect")):
+                continue
+            r = C.strip(n["recv"])
+            if not (r.get("k") == "mcall" and r.get("m") == "id" and re.search(r"hir::types::Type\b", r.get("rty") or "")):
+                continue
+            n_id += 1
+            arm_vs = set()
+            for kind, a, b in st:
+                if kind == "arm":
+                    pv = b["pat"]
+                    arm_vs |= {(v or "").split("::")[-1] for v in [pv.get("v")] + [x.get("v") for x in (pv.get("alts") or [])] if v}
+                if kind == "if":
+                    for y in C.walk(a):
+                        if y.get("k") == "let" and isinstance(y.get("pat"), dict) and y["pat"].get("v"):
+                            arm_vs.add(y["pat"]["v"].split("::")[-1])
+            restricted = bool(arm_vs & {"Struct", "Enum", "Opaque"}) and not (arm_vs & {"Primitive", "Slice", "DiplomatOption", "Callback"})
+            if not restricted:
+                base = C.strip(r["recv"])
+                if fdefs_ is None:
+                    fdefs_ = flow.defs_of(f)
+                d_ = fdefs_.get(base.get("id")) if base.get("k") == "local" else None
+                src_nodes = list(C.walk(d_[1])) if d_ and d_[0] == "expr" else []
+                restricted = any("SelfType" in (y.get("rty") or y.get("bty") or y.get("ty") or "") or (y.get("k") == "field" and y.get("n") == "param_self") for y in src_nodes)
+            key_ = "%s/id-unwrap" % C.norm_path(f["path"]).replace("diplomat_tool::", "")
+            key_ += "#%d" % sum(1 for i in ck.instances if i["rule"] == "R3" and i["key"].startswith(key_))
+            ck.expect(restricted, "R3", key_, "value restricted to a custom type",
+                      "`.id().unwrap()` on an hir::Type that is not known to be a struct, enum or opaque here: a primitive or slice in this position (e.g. the error type of `Result<(), u8>`) makes the tool panic", C.loc(f, n.get("ln")))
+    if n_id < 5:
+        ck.bad("R3", "id-unwrap/floor", "only %d `Type::id().unwrap()` sites found (7 counted)" % n_id)
+
     # ---------------- R4 nanobind param_decls agreement
     g = tool.fn("nanobind::ty::TyGenContext::gen_method_info")
     pd = next((n for n in C.walk(C.fn_body(g)) if n.get("k") == "letst" and n["pat"].get("n") == "param_decls"), None)
